@@ -11,6 +11,7 @@ import (
 	"math"
 	"strconv"
 	"strings"
+	"sync/atomic"
 
 	"golang.org/x/tools/go/ssa"
 )
@@ -396,6 +397,8 @@ func (b *bigInt) String() string { return b.s }
 
 // valEqual builds the SMT equality of two values of the same shape; ok=false
 // if equality of this shape is not expressible (caller falls back to unknown).
+var cellCmpCounter int64
+
 func valEqual(a, b Val) (string, bool) {
 	switch x := a.(type) {
 	case Int:
@@ -424,8 +427,20 @@ func valEqual(a, b Val) (string, bool) {
 				return "false", true
 			}
 			if x.Cell != nil || y.Cell != nil {
-				// a cell pointer is never nil and never equal to a heap pointer
-				return "false", true
+				// a cell pointer (the address of a local of the function under verification) is never nil.
+				// Whether it equals a symbolic heap pointer (something a callee returned or stored) is not
+				// representable: undetermined — an unconstrained boolean, which proves nothing as a goal and
+				// adds nothing as an assumption. (It used to read as false, which made a callee postcondition
+				// such as `result.Name == f.Name` contradict the path and end it silently.)
+				other := x
+				if x.Cell != nil {
+					other = y
+				}
+				if other.Cell == nil && other.Arr == "" && other.Ref == "0" {
+					return "false", true
+				}
+				n := atomic.AddInt64(&cellCmpCounter, 1)
+				return fmt.Sprintf("(cellcmp %d)", n), true
 			}
 			return sEq(ptrTerm(x), ptrTerm(y)), true
 		}
